@@ -8,6 +8,7 @@
 package simrt
 
 import (
+	"time"
 	"io"
 	"net/http"
 	"os"
@@ -367,4 +368,11 @@ func CondWait(site int, c *sync.Cond) {
 		return
 	}
 	c.L.Lock()
+}
+
+// Sleep wraps time.Sleep of the code under test: the task sleeps without the token.
+func Sleep(site int, d time.Duration) {
+	tok := BlockBegin(site)
+	time.Sleep(d)
+	BlockEnd(tok)
 }
